@@ -56,11 +56,15 @@ CHILD = textwrap.dedent('''
     pkg = %(pkg)r
     count = [0]
     down_at = fail_at[1] if isinstance(fail_at, (list, tuple)) and fail_at[0] == 'down' else None
+    retry_at = fail_at[1] if isinstance(fail_at, (list, tuple)) and fail_at[0] == 'retry' else None
+    attempts = [0]
     src_at = fail_at[1] if isinstance(fail_at, (list, tuple)) and fail_at[0] == 'src' else None
     def up(rows):
         for r in rows:
             if fail_at is not None and count[0] == fail_at:
                 raise RuntimeError('injected')
+            if retry_at is not None and attempts[0] == 0 and count[0] == retry_at:
+                raise RuntimeError('injected, first attempt only')
             count[0] += 1
             yield r
     dcount = [0]
@@ -92,8 +96,21 @@ CHILD = textwrap.dedent('''
             for i, rows in enumerate(pkg):
                 srcs.append((failing_source(rows) if i == 0 and src_at is not None else rows) if rows else [])
             flow = Flow(*[s for s in srcs if True], up, tail, checkpoint('c', checkpoint_path=%(dir)r), down) if pkg else Flow(up, tail, checkpoint('c', checkpoint_path=%(dir)r))
-            res = flow.results()[0]
-        print(json.dumps({'ops': ops, 'res': res}))
+            if retry_at is not None:
+                # the same Flow object is run again after a failed first attempt (a retry loop)
+                try:
+                    flow.results()
+                    first = 'returned'
+                except Exception:
+                    first = 'raised'
+                attempts[0] = 1
+                count[0] = 0
+                res = flow.results()[0]
+                extra_out = {'first': first}
+            else:
+                res = flow.results()[0]
+                extra_out = {}
+        print(json.dumps(dict({'ops': ops, 'res': res}, **extra_out)))
     except Exception as e:
         print(json.dumps({'ops': ops, 'error': type(e).__name__ + ': ' + str(e)[:200]}))
 ''')
@@ -175,12 +192,15 @@ def run_impl(case):
         f = os.path.join(d, 'c', 'stream.ndjson')
         exists = os.path.exists(f)
         rc2, again, err2 = child(pkg, d)
-        return {'at': fa, 'raised': bool(o and 'error' in o), 'final_exists': exists, 'rerun': (again or {}).get('res'),
-                'rerun_error': (again or {}).get('error')}
+        r = {'at': fa, 'raised': bool(o and 'error' in o), 'final_exists': exists, 'rerun': (again or {}).get('res'),
+             'rerun_error': (again or {}).get('error')}
+        if isinstance(fa, list) and fa[0] == 'retry':
+            r['retry'] = {'first': (o or {}).get('first'), 'second': (o or {}).get('res'), 'error': (o or {}).get('error')}
+        return r
     with ThreadPoolExecutor(max_workers=12) as ex:
         if case['kind'] == 'crash':
             # steps before the checkpoint at every row and at exhaustion; a step after it at every row
-            points = list(range(nrows)) + ['end'] + [['down', k] for k in range(nrows)]
+            points = list(range(nrows)) + ['end'] + [['down', k] for k in range(nrows)] + [['retry', k] for k in range(nrows)]
         else:
             points = case['points']
         out['fails'] = list(ex.map(one_fail, points))
@@ -203,6 +223,16 @@ def oracle(case, out):
         if kk['final_exists'] and kk['k'] < n - 1:
             return 'killed before file operation #%d of %d: stream.ndjson already exists' % (kk['k'], n)
     for ff in out['fails']:
+        if 'retry' in ff:
+            rt = ff['retry']
+            if rt['error'] or rt['first'] != 'raised':
+                return 'retry after a failure at row %r: first attempt %r, second attempt error %r' % (ff['at'][1], rt['first'], rt['error'])
+            if rt['second'] != out['clean']:
+                return 'the same Flow object run again after a failed attempt (at row %r) returned a different result than an uninterrupted run' % (ff['at'][1],)
+            if not ff['final_exists'] or ff['rerun_error'] or ff['rerun'] != out['clean']:
+                return 'after a failed attempt (at row %r) and a successful retry of the same Flow object, the next run does not reproduce the uninterrupted result (%s)' % (
+                    ff['at'][1], ff['rerun_error'] or 'different rows')
+            continue
         if not ff['raised']:
             return 'a step failing at %r did not fail the run' % (ff['at'],)
         if ff['final_exists']:
